@@ -378,6 +378,33 @@ def mon_c07(case_line, acts):
             out.append(V('packet identifier 0 in flight at action #%d' % i))
         if len(set(ids)) != len(ids):
             out.append(V('identifier in use twice at action #%d: ret=%s rel=%s' % (i, st.get('ret'), st.get('rel'))))
+    # on the wire: a publish / subscribe / unsubscribe call never writes an identifier-bearing packet whose identifier
+    # belongs to ANOTHER operation still in flight (the snapshot may never come: the engine can loop on the collision)
+    fl = Flow(acts)
+    tx = {}
+    for ev in fl.events:
+        if ev[0] == 'tx':
+            tx.setdefault(ev[3], []).append(ev[2])
+    for i, a in enumerate(acts):
+        if a.code not in (1, 2, 3) or i == 0 or not acts[i - 1].state:
+            continue
+        prev = acts[i - 1].state
+        held = {}
+        for x in list_field(prev.get('ret', '[]')):
+            f = x.split(':')
+            if len(f) >= 5:
+                held[int(f[0])] = bytes.fromhex(f[4])
+        rel = {int(x.split(':')[0]) for x in list_field(prev.get('rel', '[]'))}
+        for p in tx.get(i, []):
+            if p['type'] not in ('PUBLISH', 'SUBSCRIBE', 'UNSUBSCRIBE') or not p.get('pid'):
+                continue
+            pid, raw = p['pid'], p['raw']
+            same = pid in held and len(held[pid]) == len(raw) and held[pid][1:] == raw[1:] and (held[pid][0] | 8) == (raw[0] | 8)
+            if (pid in held and not same) or pid in rel:
+                out.append(V('action #%d wrote %s with identifier %d while another operation holding that identifier awaits its '
+                             'acknowledgement (in flight before the call: ret=%s rel=%s)'
+                             % (i, p['type'], pid, sorted(held), sorted(rel))))
+                return out
     return out
 
 
